@@ -133,7 +133,7 @@ def _run(cmd, cwd=None, timeout=1800, env=None):
     return rc, out
 
 
-MAKE_CMD = "cd %s && coq_makefile -f _CoqProject -o Makefile && timeout 1500 make -j%d" % (COQ, NPROC)
+MAKE_CMD = "cd %s && coq_makefile -f _CoqProject.build -o Makefile && timeout 1500 make -j%d" % (COQ, NPROC)
 
 
 def coq_build():
